@@ -45,6 +45,9 @@ Dep(i) == CASE i = 1 -> 0 [] i = 2 -> 1 [] i = 3 -> 2 [] i = 4 -> 2
 Anc(i) == CASE i = 1 -> {1} [] i = 2 -> {1, 2} [] i = 3 -> {1, 2, 3} [] i = 4 -> {1, 2, 4}
 Opts == 1..7
 Vals == 0..2                  \* 0 = not set in the context config
+\* option 2 (mid's own option) also takes two values that *compare equal* to value 1 in the implementation language but are
+\* different settings (Python: 1, True, 1.0 - distinct JSON, hence distinct lineages): 3 and 4
+ValsOf(o) == IF o = 2 THEN 0..4 ELSE Vals
 SharedDefault == 1            \* every class declares the shared option with this default
 OwnOpt(t) == IF t = 4 THEN 6 ELSE t
 TakesShared(t) == t \in {1, 3, 4}
@@ -137,7 +140,7 @@ RegisterOrSame(c) == IF registry[c.t] # c THEN Register(c)
                           /\ UNCHANGED <<registry, config, store, fz, fzo>> /\ last' = [a |-> "reg", t |-> c.t, code |-> c.uid, key |-> <<>>]
 NewOrSame == /\ cache' = NoCache /\ UNCHANGED <<registry, config, store, fz, fzo>> /\ last' = [a |-> "new", t |-> 0, code |-> <<>>, key |-> <<>>]
 
-Step == \/ \E o \in Opts, v \in Vals : SetConfig(o, v)
+Step == \/ \E o \in Opts : \E v \in ValsOf(o) : SetConfig(o, v)
         \/ \E c \in Classes : Register(c)
         \/ NewContext
         \/ \E S \in FzChoices : fz # S /\ SetFuzzy(S)
@@ -170,7 +173,7 @@ KeyIsLineage == last.a \in {"get", "key"} => last.key = TrueLineage(last.t)
 KeyOf(reg, cfg, i) == [k \in Anc(i) |-> Lin1(reg[k], cfg)]
 Takers(o) == CASE o = 1 -> {1} [] o = 2 -> {2} [] o = 3 -> {3} [] o = 4 -> {} [] o = 5 -> {1, 3, 4} [] o = 6 -> {4} [] o = 7 -> {2}
 EffOf(cls, cfg, o) == IF o = 5 THEN EffShared(cls, cfg) ELSE IF o = 7 THEN EffMixed(cls, cfg) ELSE Eff(cls, cfg)
-OptionMoves == \A o \in Opts : \A v \in Vals :
+OptionMoves == \A o \in Opts : \A v \in ValsOf(o) :
                   LET cfg2 == [config EXCEPT ![o] = v]
                   IN \A i \in T : (KeyOf(registry, cfg2, i) # KeyOf(registry, config, i))
                                   <=> (\E k \in Anc(i) \cap Takers(o) : EffOf(registry[k], cfg2, o) # EffOf(registry[k], config, o))
